@@ -168,7 +168,8 @@ pub fn ty_kind(t: &Ty) -> &'static str {
     match t {
         Ty::Bool => "bool",
         Ty::I8 | Ty::I16 | Ty::I32 | Ty::I64 | Ty::U8 | Ty::U16 | Ty::U32 | Ty::U64 | Ty::I128 | Ty::U128 => "int",
-        Ty::F32 | Ty::F64 => "float",
+        Ty::F32 => "f32",
+        Ty::F64 => "float",
         Ty::Char => "char",
         Ty::Str => "str",
         Ty::Datetime | Ty::Date | Ty::Time => "datetime",
